@@ -26,6 +26,11 @@ ABSENT = "@absent"  # JSON spelling of "this dict has no such key"
 # signatures: a stale cache after one of these has one root cause, after another op a different one)
 FLAGGED = {"modify_element", "modify_row", "modify_column", "append", "remove_rows", "rename"}
 
+# operations after which the comparison may be skipped ('N' in the order string) besides the FLAGGED ones: they create
+# a new table object / handle; the in-place operations that never invalidate (fillna, reset_index, set_columns) are
+# always followed by a comparison so that a stale cache is attributed to the operation that left it behind
+SKIPPABLE = {"slice", "clone", "rewrap", "reframe", "query_take", "slow_take"}
+
 # step-over names -> signature of the finding they step over (main() activates a step-over iff
 # that signature is an OPEN known finding)
 STEPOVER_SIGS = {
@@ -336,6 +341,14 @@ def call(where, fn, *a, **kw):
         raise Crash(where, e)
 
 
+class Attributed(Exception):
+    """A discrepancy whose signature is already final."""
+    def __init__(self, sig, what):
+        Exception.__init__(self, what)
+        self.sig = tuple(sig)
+        self.what = what
+
+
 class Found(Exception):
     """A discrepancy (control flow inside the comparison routines)."""
     def __init__(self, family, sig_tail, what):
@@ -550,6 +563,9 @@ def check_index(E, dm, m, active, deep=True):
     cols = list(m.cols)
     # (read through get_data(): get_rows() would refresh the caches this query is supposed to find valid)
     raw = dm.get_data().values if n else []
+    if len(raw) != n or (n and len(raw[0]) != len(cols)):
+        raise Found("rows", ("len", "differs"), "the table holds %d rows x %d columns, scan says %d x %d" % (
+            len(raw), len(raw[0]) if len(raw) else 0, n, len(cols)))
     for c in cols:
         # one scan of the model column: value -> positions
         scan = {}
@@ -1147,16 +1163,21 @@ def run_case(case, E=None):
         active[k] = 0
     info = collections.Counter()
     labels = set()
-    res = {"found": None, "nontrivial": False, "steps": 0, "labels": labels, "info": info, "stepovers": active}
+    res = {"found": None, "error": None, "nontrivial": False, "steps": 0, "labels": labels, "info": info, "stepovers": active}
     step = 0
     op = ops[0]
+    blame = [""]
     sink = io.StringIO()
     try:
         with contextlib.redirect_stderr(sink), contextlib.redirect_stdout(sink):
             try:
                 dm, m = construct(E, op)
                 siblings = []
-                compare_all(E, dm, m, orders[0:1] or "I", active, info)
+                first_order = orders[0:1] or "I"
+                compare_all(E, dm, m, "I" if first_order == "N" else first_order, active, info)
+                checked = m             # the model at the last comparison of the CURRENT table object (None: not yet queried)
+                pending = 0             # flagged mutations of the current table (or of a handle aliasing it) since its last comparison
+                last = len(ops) - 1
                 for step in range(1, len(ops)):
                     op = ops[step]
                     order = orders[step:step + 1] or "I"
@@ -1164,15 +1185,37 @@ def run_case(case, E=None):
                     why = invalid(E, dm, m, op)
                     if why:
                         info["discard:" + why] += 1
-                        continue
+                        if step != last:
+                            continue
+                        op = ["clone"]          # the last step always ends with a comparison
+                    if op[0] == "query_take" and pending:
+                        # this operation IS an indexed query: the table it is asked on is compared first (so that a stale
+                        # index is attributed to the mutation that left it behind, and stepped over while that finding is open)
+                        blame[0] = "flagged-mutation"
+                        if "stale-index" in active:
+                            dm.get_rows()
+                            active["stale-index"] += pending
+                        pending = 0
+                        compare_all(E, dm, m, "I", active, info, light=True)
+                        checked = m
                     ndm, m, replaced = apply_op(E, dm, m, op)
                     if replaced is True:
-                        siblings.append((dm, before, op[0]))
+                        # the old table stays alive; it may have been mutated since its last comparison
+                        if pending and "stale-index" in active:
+                            dm.get_rows()
+                            active["stale-index"] += pending
+                        siblings.append((dm, before, op[0], pending))
                         del siblings[:-2]
+                        checked = None
+                        pending = 0
                     dm = ndm
                     res["steps"] = step
-                    # --- step-overs (by construction, counted) ---
+                    labels.add("op:" + op[0])
                     cls = opclass(op)
+                    blame[0] = cls
+                    if cls == "flagged-mutation":
+                        pending += 1
+                    # --- step-overs of the mutators that never invalidate (by construction, counted) ---
                     if cls == "fillna" and "fillna" in active:
                         dm.set_refresh_flag()
                         active["fillna"] += 1
@@ -1182,28 +1225,54 @@ def run_case(case, E=None):
                     if cls == "set_columns" and "set-columns" in active:
                         dm.set_refresh_flag()
                         active["set-columns"] += 1
-                    if "stale-index" in active and not replaced:
-                        # any read of the row view rebuilds the caches after a flagged mutation
+                    # --- 'N': no comparison after this step, the next operation meets cold / dirty caches ---
+                    if order == "N" and step != last and (cls == "flagged-mutation" or op[0] in SKIPPABLE):
+                        info["unchecked-steps"] += 1
+                        continue
+                    pending_before_check = pending
+                    if pending:
+                        blame[0] = "flagged-mutation"
+                    if "stale-index" in active:
+                        # step-over of the stale column index: any read of the row view rebuilds the caches after a
+                        # flagged mutation, before the indexed queries are repeated
                         dm.get_rows()
-                        if cls == "flagged-mutation":
-                            active["stale-index"] += 1
-                    if not replaced and index_snapshot(before) != index_snapshot(m):
+                        active["stale-index"] += pending
+                    pending = 0
+                    if checked is not None and index_snapshot(checked) != index_snapshot(m):
                         res["nontrivial"] = True
-                    labels.add("op:" + op[0])
-                    compare_all(E, dm, m, order, active, info)
-                    for sdm, sm, how in siblings:
+                        labels.add("state:query-mutation-same-query-different-answer")
+                    if m.n() == 0:
+                        labels.add("state:table-became-empty")
+                    elif m.labels() != list(range(m.n())):
+                        labels.add("state:labels-differ-from-positions")
+                    if any(v is None for vals in m.values() for v in vals):
+                        labels.add("state:has-missing-values")
+                    if checked is not None and pending_before_check > 1:
+                        labels.add("state:several-mutations-between-comparisons")
+                    compare_all(E, dm, m, "I" if order == "N" else order, active, info)
+                    checked = m
+                    for sdm, sm, how, spending in siblings:
                         try:
                             compare_all(E, sdm, sm, "I", active, info, light=True)
-                        except Found as f:
-                            raise Found("other", ("sibling", how) + f.sig_tail[:1], "after %s on a table obtained by %s, the ORIGINAL table changed: %s" % (op[0], how, f.what))
-                        except Crash as c:
-                            raise Found("other", ("sibling", how, "crash"), "after %s on a table obtained by %s, a query on the ORIGINAL table fails: %s" % (op[0], how, c))
+                        except (Found, Crash) as f:
+                            fam = info.get("_fam") or ""
+                            detail = f.what if isinstance(f, Found) else str(f)
+                            if spending and fam and cured(E, sdm, sm, active, info, fam):
+                                # not a dependence between the two tables: the set-aside table itself was mutated and
+                                # never queried again before it was set aside
+                                raise Attributed((ID, "not-invalidated", "flagged-mutation", STALE_FAMILY[fam]),
+                                                 "step %d %s: the table set aside by %s: %s  [caches were not invalidated by the mutation before: the same "
+                                                 "queries are correct after set_refresh_flag()+get_rows()]" % (step, op[0], how, detail))
+                            tail = f.sig_tail[:1] if isinstance(f, Found) else ("crash",)
+                            raise Found("other", ("sibling", how) + tail, "after %s on a table obtained by %s, the ORIGINAL table changed: %s" % (op[0], how, detail))
+            except Attributed as a:
+                res["found"] = (a.sig, a.what)
             except Found as f:
                 sig = (ID,) + f.sig_tail
                 what = "step %d %s: %s" % (step, op[0], f.what)
                 fam = info.get("_fam") or ""
                 if fam and step > 0 and f.sig_tail[:1] != ("sibling",) and cured(E, dm, m, active, info, fam):
-                    sig = (ID, "not-invalidated", opclass(op), STALE_FAMILY[fam])
+                    sig = (ID, "not-invalidated", blame[0], STALE_FAMILY[fam])
                     what += "  [caches were not invalidated by %s: the same queries are correct after set_refresh_flag()+get_rows()]" % op[0]
                 res["found"] = (sig, what)
             except Crash as c:
@@ -1211,9 +1280,12 @@ def run_case(case, E=None):
                 what = "step %d %s: %s" % (step, op[0], c)
                 fam = info.get("_fam") or ""
                 if fam and step > 0 and cured(E, dm, m, active, info, fam):
-                    sig = (ID, "not-invalidated", opclass(op), STALE_FAMILY[fam])
+                    sig = (ID, "not-invalidated", blame[0], STALE_FAMILY[fam])
                     what += "  [caches were not invalidated by %s: the same queries are correct after set_refresh_flag()+get_rows()]" % op[0]
                 res["found"] = (sig, what)
+            except Exception:
+                import traceback
+                res["error"] = "harness exception at step %d %r of case %r:\n%s" % (step, op, case, traceback.format_exc())
     finally:
         pass
     info.pop("_fam", None)
